@@ -447,7 +447,7 @@ def signature(src, edits, tree):
         r = describe(src, e, toks, sub)
         inside, prev, nxt = _tok_at(toks, e[0], e[1])
         det.append({"rule": r[0], "shape": r[1], "ctx": r[2], "removed": src[e[0]:e[1]], "inserted": e[2],
-                    "prev": prev, "next": nxt, "inside": inside, "at": e[0], "toks": toks})
+                    "prev": prev, "next": nxt, "inside": inside, "at": e[0], "toks": toks, "follows": src[e[1]:e[1] + 1]})
     return tuple(sorted({(d["rule"], d["shape"], d["ctx"]) for d in det})), det
 
 
@@ -456,3 +456,58 @@ def brief(det):
     return [{"rule": d["rule"], "shape": d["shape"], "ctx": d["ctx"], "removed": d["removed"], "inserted": d["inserted"],
              "prev": d["prev"].string if d["prev"] is not None else None, "next": d["next"].string if d["next"] is not None else None,
              "inside": d["inside"].string if d["inside"] is not None else None} for d in det]
+
+
+# ----------------------------------------------------------------------------------------
+# where in the *tree* the effect of an edit shows (robust against unreliable line numbers)
+
+
+def _helper_name(c):
+    """name X when the canonical node `c` is a call of __xonsh__.X, else None"""
+    try:
+        if c[0] != "Call":
+            return None
+        f = dict(c[1]).get("func")
+        if f and f[0] == "Attribute":
+            fd = dict(f[1])
+            v = fd.get("value")
+            if v and v[0] == "Name" and dict(v[1]).get("id") == ("str", "'__xonsh__'"):
+                return fd.get("attr")[1].strip("'")
+    except Exception:  # noqa: BLE001
+        return None
+    return None
+
+
+def diff_flags(a, b, flags=None):
+    """Walk two canonical trees (vlib.astcanon) to their first difference; collect which xonsh helper
+    calls / node classes enclose it (or are it): 'subproc', 'macro', 'fstring'."""
+    if flags is None:
+        flags = set()
+    if a == b:
+        return flags
+
+    def note(c):
+        h = _helper_name(c) if isinstance(c, tuple) and c else None
+        if h:
+            if h.startswith("subproc_"):
+                flags.add("subproc")
+            elif h in ("call_macro", "enter_macro"):
+                flags.add("macro")
+        if isinstance(c, tuple) and c and c[0] == "JoinedStr":
+            flags.add("fstring")
+
+    note(a)
+    note(b)
+    if isinstance(a, tuple) and isinstance(b, tuple) and len(a) == 2 and len(b) == 2 and isinstance(a[0], str) and a[0] == b[0] \
+            and isinstance(a[1], tuple) and isinstance(b[1], tuple) and a[1] and b[1] and isinstance(a[1][0], tuple) \
+            and len(a[1][0]) == 2 and isinstance(a[1][0][0], str):
+        fa, fb = dict(a[1]), dict(b[1])
+        for k in fa:
+            if fa.get(k) != fb.get(k):
+                return diff_flags(fa.get(k), fb.get(k), flags)
+        return flags
+    if isinstance(a, tuple) and isinstance(b, tuple) and a and b and isinstance(a[0], tuple) and isinstance(b[0], tuple):
+        for x, y in zip(a, b):
+            if x != y:
+                return diff_flags(x, y, flags)
+    return flags
